@@ -267,6 +267,12 @@ def run(ctx):
     if witness_fails(mg.V23_DYNAMIC_SCOPE, "main.h main.x\nlocal\na.f a.y\n", reps=5):
         ctx.violation({"kind": "modgraph", "mods": mg.V23_DYNAMIC_SCOPE}, "C15 regression V23: a free variable of a called function is "
                       "resolved through the caller's scopes (or the backends disagree) on the recorded witness")
+    # V41 (repaired): a function literal created in one module and called from another runs in its own module
+    v41 = {"main": "import { apply, get } from b;\nlet xm = 9;\nfn main() { println(apply(fn() -> int { get() })); println(apply(fn() -> int { xm })); }",
+           "b": "let xb = 5;\npub fn get() -> int { xb }\npub fn apply(f: fn() -> int) -> int { f() + xb }\nfn main() { }"}
+    if witness_fails(v41, "10\n14\n", reps=5):
+        ctx.violation({"kind": "modgraph", "mods": v41}, "C15 regression V41: a function literal called from another module does not run in "
+                      "the module that created it (or a backend fails) on the recorded witness")
     two = list(mg.family_a()) + list(mg.family_b()) + list(mg.family_c()) + list(mg.family_e()) + list(mg.family_r())
     for i in range(0, len(two), 1000):
         if len(ctx.violations) >= 5:
